@@ -84,6 +84,8 @@ def run(ck: Check, repo: Repo) -> None:
     _init_dict(ck, repo)
     _forwarded(ck, repo)
     _context(ck, repo)
+    from ._c03_r5 import run_r5
+    run_r5(ck, repo)
 
 
 # ------------------------------------------------------------------------------------------------ C03.1/2/5
